@@ -1,6 +1,7 @@
 (* C18 - specification vocabulary, independent of the clone functions:
    - [defn_*]     the definition of an object: every engine-owned field (id, state, attempts, submit time,
-                  reason) and the derived registry verdict blanked; keys are kept;
+                  reason) and the derived registry verdict blanked; keys are kept; Meta is read as its bytes
+                  (a nil Meta and an empty one are the same definition: [meta_val]);
    - [nokeys_*]   keys blanked;
    - [state_*]    the execution state of an object: every definition field blanked, the engine-owned ones kept;
    - [norm_*]     shape normalisation: nil slices read as empty, nil blocks / nil sequences / sequences
@@ -41,7 +42,7 @@ Definition defn_block (b : block) : block :=
      b_conc := b_conc b; b_tol := b_tol b; b_state := None |}.
 
 Definition defn_plan (p : plan) : plan :=
-  {| p_id := uid0; p_group := p_group p; p_name := p_name p; p_descr := p_descr p; p_meta := p_meta p;
+  {| p_id := uid0; p_group := p_group p; p_name := p_name p; p_descr := p_descr p; p_meta := meta_val (p_meta p);
      p_bypass := option_map defn_checks (p_bypass p); p_pre := option_map defn_checks (p_pre p);
      p_cont := option_map defn_checks (p_cont p); p_post := option_map defn_checks (p_post p);
      p_deferred := option_map defn_checks (p_deferred p);
